@@ -556,3 +556,31 @@ Proof.
     destruct ((64 <=? m_cid m) && (m_cid m <=? 319)); [discriminate|].
     destruct ((320 <=? m_cid m) && (m_cid m <=? 65599)); discriminate.
 Qed.
+
+(* ---------- handshake ++ session on ONE transport ----------
+   The code hands the connection over unbuffered: Handshake.ReadC0S0/C1S1/C2S2 call
+   io.CopyN(buf, conn, n) directly on the connection (io.CopyN reads through an io.LimitedReader,
+   which never asks the connection for more than the bytes still missing), and only afterwards
+   NewProtocol wraps the same connection in a bufio.Reader.  In the model: copy_n takes exactly n
+   bytes off the segment list and returns what is left of it -- a segment holding the tail of C2
+   and the first chunk bytes is split, its rest stays in the transport -- and the chunk reader
+   continues on that remainder. *)
+Theorem handshake_session (rnd s1 : bytes) ms (segs : inp) fuel :
+  length rnd = 1528%nat -> length s1 = 1536%nat -> Forall wf_msg ms ->
+  (length ms < fuel)%nat -> Forall (fun m => (length (m_payload m) + length ms < fuel)%nat) ms ->
+  exists ws, write_all DEFCHUNK ms = map Ok ws /\
+    (flat segs = hs_c0s0 ++ hs_c1s1 rnd ++ hs_c2s2 s1 ++ concat ws ->
+     exists i1 i2 i3,
+       hs_read_c0s0 segs = Ok ([3], i1) /\ hs_read_c1s1 i1 = Ok (hs_c1s1 rnd, i2) /\
+       hs_read_c2s2 i2 = Ok (s1, i3) /\
+       read_all fuel rs0 i3 [] = (ms, E_EOF)).
+Proof.
+  intros Hr Hs W Hf Hfs.
+  destruct (session_eof ms W DEFCHUNK rs0 [] fuel) as (ws & Hw & Hread); auto; try reflexivity.
+  { exact rs0_idle. }
+  exists ws. split; [exact Hw|]. intros Hflat.
+  destruct (handshake rnd s1 (concat ws) segs Hr Hs Hflat) as (i1 & i2 & i3 & H1 & H2 & H3 & F3 & _).
+  exists i1, i2, i3. repeat split; auto.
+  cbn [rev app] in Hread. etransitivity; [|exact Hread].
+  apply read_all_same. cbn [flat concat]. now rewrite app_nil_r.
+Qed.
